@@ -165,4 +165,54 @@ theorem link_C01 (a : C01.Spec) (op : C01.Op) (op' : Op UKey) (hl : liftOp op = 
     simp only [C01.Spec.apply, C01.Spec.setAttrEdge, canon_eq, step, apply?, setEdgeAttr, ofSpec]
     cases hg : AL.get? ae (canonU raw) <;> simp
 
+/-- more C01 operations: node batches (with and without the metadata table) and `clear` -/
+def liftOp2 : C01.Op → Option (Op UKey)
+  | .addNodes ns tbl => some (.addNodes ns tbl)
+  | .clear => some .clear
+  | op => liftOp op
+
+theorem ofSpec_foldl_addNode (f : Node → Option Meta) (ns : List Node) : ∀ (a : C01.Spec),
+    ofSpec (ns.foldl (fun a n => C01.Spec.addNode a n (f n)) a) =
+      ns.foldl (fun h n => addNode h n ((f n).getD [])) (ofSpec a) := by
+  induction ns with
+  | nil => intro a; rfl
+  | cons n ns ih =>
+    intro a
+    rw [List.foldl_cons, List.foldl_cons, ih]
+    congr 1
+    obtain ⟨h1, h2, h3⟩ := addNode_eq a n (f n)
+    simp [ofSpec, addNode, h1, h2, h3]
+
+theorem touchAll_eq_foldl (ns : List Node) : ∀ (c : Content UKey),
+    touchAll c ns = ns.foldl (fun h n => addNode h n []) c := by
+  induction ns with
+  | nil => intro c; rfl
+  | cons n ns ih =>
+    intro c
+    rw [List.foldl_cons, ← ih]
+    simp [touchAll, touchL, addNode]
+
+theorem link_C01_nodes (a : C01.Spec) (op : C01.Op) (op' : Op UKey) (hl : liftOp2 op = some op')
+    (hwf : WF (ofSpec a)) :
+    ofSpec (C01.Spec.apply a op).1 = step (ofSpec a) op' ∧
+    ((C01.Spec.apply a op).2 = .ok ↔ (apply? (ofSpec a) op').isSome = true) := by
+  cases op
+  case addNodes ns tbl =>
+    simp only [liftOp2, Option.some.injEq] at hl; subst hl
+    cases tbl with
+    | none =>
+      have := ofSpec_foldl_addNode (fun _ => none) ns a
+      simp only [Option.getD_none] at this
+      simp [C01.Spec.apply, C01.Spec.addNodes, step, apply?, addNodes, this, touchAll_eq_foldl]
+    | some t =>
+      have := ofSpec_foldl_addNode (fun n => AL.get? t n) ns a
+      simp only [C01.Spec.apply, C01.Spec.addNodes, step, apply?, addNodes, AL.has]
+      by_cases hv : ns.all (fun n => (AL.get? t n).isSome) = true
+      · simp [hv, this]
+      · simp [hv]
+  case clear =>
+    simp only [liftOp2, Option.some.injEq] at hl; subst hl
+    simp [C01.Spec.apply, step, apply?, clear, ofSpec, Keyed.clearsHyper]
+  all_goals exact link_C01 a _ op' hl hwf
+
 end C05
